@@ -924,24 +924,40 @@ package ast
 //@   ensures[C20] allocbounded: $allocated - old($allocated) <= ($consumed - old($consumed)) + 4096 + 16
 //@   ensures[C20] paidonsuccess: err == nil ==> $allocated - old($allocated) <= $consumed - old($consumed)
 //@   ensures[C20] monotone: $consumed >= old($consumed) && $allocated >= old($allocated)
-//@ extern func ReadIntFromReader(r) (i, err)
+// The three fixed-size read primitives are CHECKED against their bodies (thirteenth round) for everything but the byte decoding:
+// the primitive fails exactly when its one io.ReadFull fails (a failed or short read is never swallowed and never invented),
+// it consumes exactly one token on success and none on failure, allocates exactly its fixed buffer (8 bytes / 1 byte) and does
+// not panic. What the bytes of a token of the expected kind decode to stays a trusted clause (T-IO: binary.LittleEndian).
+//@ func ReadIntFromReader(r) (i, err)
+//@   serves C12 C20
+//@   requires r != nil
 //@   nopanic
-//@   ensures (err == nil) == (old($rPos) < $rEnd)
+//@   modifies global TotalRead, global ReadCount, $allocated, $consumed, $rPos
+//@   ensures[C12,C20] surfaced: (err == nil) == (old($rPos) < $rEnd)
+//@   ensures[C12,C20] onetoken: $rPos == old($rPos) + ite(err == nil, 1, 0)
 //@   ensures i >= 0 && i <= 18446744073709551615
-//@   ensures err == nil && $rK[old($rPos)] == 2 ==> i == $rI[old($rPos)]
-//@   ghost_exit $rPos = ite(err == nil, $rPos + 1, $rPos)
+//@   trusted_ensures err == nil && $rK[old($rPos)] == 2 ==> i == $rI[old($rPos)]
+//@   ensures[C20] fixedbuffer: $allocated - old($allocated) == 8 && $consumed >= old($consumed) && (err == nil ==> $consumed - old($consumed) == 8)
 //@   ghost_exit $rErrN = ite(err != nil, $rErrN + 1, $rErrN)
-//@ extern func ReadBoolFromReader(r) (b, err)
+//@ func ReadBoolFromReader(r) (b, err)
+//@   serves C12 C20
+//@   requires r != nil
 //@   nopanic
-//@   ensures (err == nil) == (old($rPos) < $rEnd)
-//@   ensures err == nil && $rK[old($rPos)] == 3 ==> b == $rB[old($rPos)]
-//@   ghost_exit $rPos = ite(err == nil, $rPos + 1, $rPos)
+//@   modifies global TotalRead, $allocated, $consumed, $rPos
+//@   ensures[C12,C20] surfaced: (err == nil) == (old($rPos) < $rEnd)
+//@   ensures[C12,C20] onetoken: $rPos == old($rPos) + ite(err == nil, 1, 0)
+//@   trusted_ensures err == nil && $rK[old($rPos)] == 3 ==> b == $rB[old($rPos)]
+//@   ensures[C20] fixedbuffer: $allocated - old($allocated) == 1 && $consumed >= old($consumed) && (err == nil ==> $consumed - old($consumed) == 1)
 //@   ghost_exit $rErrN = ite(err != nil, $rErrN + 1, $rErrN)
-//@ extern func ReadFloatFromReader(r) (f, err)
+//@ func ReadFloatFromReader(r) (f, err)
+//@   serves C12 C20
+//@   requires r != nil
 //@   nopanic
-//@   ensures (err == nil) == (old($rPos) < $rEnd)
-//@   ensures err == nil && $rK[old($rPos)] == 4 ==> f == $rF[old($rPos)]
-//@   ghost_exit $rPos = ite(err == nil, $rPos + 1, $rPos)
+//@   modifies global TotalRead, $allocated, $consumed, $rPos
+//@   ensures[C12,C20] surfaced: (err == nil) == (old($rPos) < $rEnd)
+//@   ensures[C12,C20] onetoken: $rPos == old($rPos) + ite(err == nil, 1, 0)
+//@   trusted_ensures err == nil && $rK[old($rPos)] == 4 ==> f == $rF[old($rPos)]
+//@   ensures[C20] fixedbuffer: $allocated - old($allocated) == 8 && $consumed >= old($consumed) && (err == nil ==> $consumed - old($consumed) == 8)
 //@   ghost_exit $rErrN = ite(err != nil, $rErrN + 1, $rErrN)
 
 // ---- NodeMeta: token layout = NodeMeta fields, then the struct's own fields in DECLARATION order ----
